@@ -171,6 +171,32 @@ func c02Run(c *C) {
 			}
 			c.Cover("sweep_ok")
 		}
+		if f == "upper" {
+			// blocks rendered one by one through ExecuteBlocks
+			set, _ := newSet(map[string]string{"/base.tpl": "{% block b1 %}base {{ t2 }}{% endblock %}{% block b2 %}x{% endblock %}",
+				"/main.tpl": "{% extends \"/base.tpl\" %}{% block b1 %}{{ t1 }}{% for i in tl %}{{ i }}{% endfor %}{% with w=ts %}{{ w }}{% endwith %}{{ block.Super }}{% endblock %}{% block b2 %}{% macro m(a) %}{{ a }}{% endmacro %}{{ m(t2) }}{{ tm.a }}{% firstof t1 %}{% endblock %}"})
+			for _, name := range []string{"/main.tpl", "/base.tpl"} {
+				tpl, err := set.FromFile(name)
+				if err != nil {
+					c.Fail("setup", D{"error": err.Error()})
+					return
+				}
+				blocks, berr := tpl.ExecuteBlocks(c02Ctx(false), []string{"b1", "b2"})
+				c.Eval(1)
+				if berr != nil {
+					c.Fail("setup", D{"error": berr.Error()})
+					return
+				}
+				for bn, out := range blocks {
+					if leak := c02Leak(out, false); leak != "" {
+						c.Fail("raw-leak", D{"entry": "ExecuteBlocks", "template": name, "block": bn, "output": q(out), "leak": q(leak)})
+						return
+					}
+					c.Nontrivial("blocks:" + name + bn)
+				}
+			}
+			c.Cover("execute_blocks_fixed")
+		}
 		if c.WantSample() && f == "join" {
 			out, _, _ := renderString("{{ tl|join:t1 }}", c02Ctx(false))
 			c.Sample(D{"source": "{{ tl|join:t1 }}", "output": out})
@@ -221,6 +247,25 @@ func c02Run(c *C) {
 			reached = true
 		}
 		c.Cover("program_ok")
+	}
+	// the ExecuteBlocks entry point renders single blocks: the same rule applies to each of them
+	if strings.Contains(main, "{% block") || strings.Contains(files["/base.tpl"], "{% block") {
+		ctx := c02Ctx(false)
+		ctx["incname"] = inc
+		blocks, berr := tpl.ExecuteBlocks(ctx, []string{"b1", "b2", "inner"})
+		c.Eval(1)
+		if berr == nil {
+			for name, out := range blocks {
+				if leak := c02Leak(out, relax); leak != "" {
+					c.Fail("raw-leak", D{"entry": "ExecuteBlocks", "block": name, "main": q(main), "files": files, "output": q(truncStr(out, 1500)), "leak": q(leak)})
+					return
+				}
+				if strings.Contains(out, "&lt;") {
+					reached = true
+				}
+			}
+			c.Cover("execute_blocks_ok")
+		}
 	}
 	if reached {
 		c.Nontrivial("p:" + main)
